@@ -86,29 +86,27 @@ theorem T03_add_register_names (dflt : Nat → ν) (l : List (Item ν)) {st : St
   exact nameAt_eq_nameSpec (inv_run (noB_flat l) hr) hp
 
 /-- a measurement with an explicit name is rejected iff a measurement that is still terminal
-carries that name. -/
+carries that name; a measurement without a name is never rejected. -/
 theorem T03_add_duplicate_rejected (dflt : Nat → ν) (s : St ν) (ts : List Nat) (x : ν) (c : Bool) :
     addMeas dflt s ts (some x) c = none ↔ ∃ p ∈ s.meas, nameAt s.queue p = some x :=
-  addMeas_none_iff dflt s ts (some x) c
+  addMeas_none_iff dflt s ts x c
 
-/-- a measurement WITHOUT a name is rejected iff a measurement that is still terminal carries
-the default name it would get, `register<k>` with `k` the number of measurement gates already in
-the queue (the duplicate check runs for default names too). -/
 theorem T03_add_default_accepted (dflt : Nat → ν) (s : St ν) (ts : List Nat) (c : Bool) :
-    addMeas dflt s ts none c = none ↔
-      ∃ p ∈ s.meas, nameAt s.queue p = some (dflt (nMeas s.queue)) :=
-  addMeas_none_iff dflt s ts none c
+    (addMeas dflt s ts none c).isSome = true :=
+  addMeas_default_isSome dflt s ts c
 
-/-- **register names of the terminal measurements are pairwise different**, for every accepted
-sequence of calls and every default-name function: each new name, explicit or default, is
-checked against the measurements that are still terminal. -/
-theorem T03_add_names_unique (dflt : Nat → ν) (l : List (Item ν))
-    {st : St ν} (hr : run dflt l = some st) :
+/-- **register names of the terminal measurements are pairwise different**, provided default
+names are injective in `k` and no explicit name equals the default name of a LATER measurement
+(`NoClash`: the default name is not checked against existing registers by `Circuit.add`; when
+the hypothesis fails an earlier register is silently lost — reported by the search of
+tools/props/C03.py under the key `circuit-add:default-name-clash`). -/
+theorem T03_add_names_unique (dflt : Nat → ν) (hinj : Function.Injective dflt) (l : List (Item ν))
+    (hc : NoClash dflt (flat l)) {st : St ν} (hr : run dflt l = some st) :
     (st.meas.map (nameAt st.queue)).Nodup := by
   have hm := T03_add_measurements dflt l hr
   have hr' := hr
   rw [T03_add_basis_rotations] at hr'
-  have hn := finalNames_nodup (flat l) (noB_flat l) hr'
+  have hn := finalNames_nodup hinj (flat l) (noB_flat l) hc hr'
   unfold finalNames at hn
   rw [hm]
   rw [List.map_congr_left (g := nameSpec dflt (flat l))]
@@ -121,15 +119,15 @@ theorem T03_add_default_names_injective :
     Function.Injective fun k : Nat => "register" ++ toString k :=
   registerName_injective
 
-/-- `circuit.measurement_tuples` is the list of (name, target qubits) of the terminal
+/-- `circuit.measurement_tuples` is then the list of (name, target qubits) of the terminal
 measurements in queue order (the dict comprehension loses nothing). -/
-theorem T03_add_measurement_tuples (dflt : Nat → ν) (l : List (Item ν)) {st : St ν}
-    (hr : run dflt l = some st) :
+theorem T03_add_measurement_tuples (dflt : Nat → ν) (hinj : Function.Injective dflt)
+    (l : List (Item ν)) (hc : NoClash dflt (flat l)) {st : St ν} (hr : run dflt l = some st) :
     measurementTuples st = st.meas.map fun p => (nameAt st.queue p, qubitsAt st.queue p) := by
   unfold measurementTuples
   apply dictOf_of_nodup
   rw [List.map_map]
-  exact T03_add_names_unique dflt l hr
+  exact T03_add_names_unique dflt hinj l hc hr
 
 /-! ### non-vacuity and the seeded defect -/
 
@@ -164,16 +162,36 @@ example : (run d lOk).map (fun st => (st.meas, st.meas.map (nameAt st.queue)))
 
 example : (run d lOk).isSome = true ∧ (flat lOk).length = 7 := by decide
 
+/-- the hypotheses of `T03_add_names_unique` are satisfiable: `lOk` has no clash (its only
+explicit name is "a"), and `d` is injective. -/
+private theorem lOk_noClash : NoClash d (flat lOk) := by
+  intro i j ts y c ts' c' hij hi hj
+  have hj' : j < 7 := by
+    by_contra hc
+    have : (flat lOk)[j]? = none := List.getElem?_eq_none (by show (flat lOk).length ≤ j; simp [lOk, flat]; omega)
+    rw [this] at hj; cases hj
+  have hi0 : i = 0 := by
+    by_contra hne
+    have : i = 1 ∨ i = 2 ∨ i = 3 ∨ i = 4 ∨ i = 5 := by omega
+    rcases this with rfl | rfl | rfl | rfl | rfl <;> simp [lOk, flat] at hi
+  subst hi0
+  have hy : y = "a" := by
+    simp [lOk, flat] at hi; exact hi.2.1.symm
+  subst hy
+  intro he
+  have : ("a" : String).toList = (d (mIndex (flat lOk) j)).toList := by rw [he]
+  simp only [d, String.toList_append] at this
+  cases this
+
 example {st : St String} (h : run d lOk = some st) : (st.meas.map (nameAt st.queue)).Nodup :=
-  T03_add_names_unique d lOk h
+  T03_add_names_unique d T03_add_default_names_injective lOk lOk_noClash h
 
-/-- the repaired defect: an explicit "register1" followed by a measurement that would get the
-default name "register1" is rejected … -/
-example : run d [.meas [0] (some "register1") false, .meas [1] none false] = none := by decide
-
-/-- … unless the holder of the name has become collapsing meanwhile. -/
-example : (run d [.meas [0] (some "register1") false, .gate [0], .meas [1] none false]).isSome = true := by
-  decide
+/-- the `NoClash` hypothesis cannot be dropped: an explicit "register1" followed by a measurement
+that gets the default name "register1" is accepted and both terminal registers carry that name;
+`measurement_tuples` keeps one entry only. -/
+example : (run d [.meas [0] (some "register1") false, .meas [1] none false]).map
+    (fun st => (st.meas.map (nameAt st.queue), (measurementTuples st).length))
+    = some ([some "register1", some "register1"], 1) := by decide
 
 /-- a duplicate explicit name among terminal measurements is rejected … -/
 example : run d [.meas [0] (some "a") false, .meas [1] (some "a") false] = none := by decide
